@@ -573,6 +573,23 @@ func (e *Env) evalCall(n *ast.CallExpr) Val {
 			}
 		}
 		evalFail("atloop(%d, ...): loop %d is not open here", ord, ord)
+	case "exitedloop":
+		// exitedloop(n): loop n was left through its normal exit (all its elements were processed); false while
+		// inside an iteration, so "at return: assert result ==> exitedloop(1)" says that a positive answer is
+		// only given after the whole loop, never from inside an iteration
+		lit, ok := n.Args[0].(*ast.BasicLit)
+		if !ok || e.fr == nil {
+			evalFail("exitedloop(n) needs a literal loop ordinal")
+		}
+		ord, _ := strconv.Atoi(lit.Value)
+		for key, ol := range e.st.open {
+			if key.frame == e.fr.id {
+				if lp := e.fr.loops.byHead[key.head]; lp != nil && lp.ordinal == ord && ol.exited {
+					return Bool{"true"}
+				}
+			}
+		}
+		return Bool{"false"}
 	case "visitedloop":
 		// visitedloop(n): the head of loop n was reached on this path (since the enclosing iteration began)
 		lit, ok := n.Args[0].(*ast.BasicLit)
